@@ -16,7 +16,7 @@
      statement is kept in the comment above them. *)
 From Coq Require Import List ZArith Bool Arith Lia.
 From SC Require Import Base.Res Base.PyList Inst.Heap Inst.ClassTable Inst.Model Inst.Canon
-  Inst.Abs Inst.SpecHelpers Inst.RefineProofs Inst.CopyProofs Inst.CopyStore Inst.RefineMore Inst.RefineMore2 Inst.RefineMore3 Inst.RefineMore4 Inst.RefineMore5 Inst.RefineMore6 Inst.RefineMore7.
+  Inst.Abs Inst.SpecHelpers Inst.RefineProofs Inst.CopyProofs Inst.CopyStore Inst.RefineMore Inst.RefineMore2 Inst.RefineMore3 Inst.RefineMore4 Inst.RefineMore5 Inst.RefineMore6 Inst.RefineMore7 Inst.RefineMore8.
 Import ListNotations.
 Open Scope nat_scope.
 
@@ -982,6 +982,80 @@ Example C05_example_nothing :
    r = Err TypeErr).
 Proof. vm_compute. repeat split. Qed.
 
+(* ---------------- nested values: an existing instance (Inst/RefineMore8.v) ---------------- *)
+(* with_<a>(x, _inplace=True) / obj.a = x where x is a reference to an existing instance
+   (class cv, acyclic: aok (abs 23 ..)) that does not reach the receiver (`forall o, abs 23
+   (set_nth l o h) x = abs 23 h x`; `indep_below`: e.g. x lives in a closed region of the
+   heap below the receiver): no preparer or the identity.  The reference itself is stored
+   (the receiver's cell is the only one written), the receiver's abstraction gets abs(x)
+   under `a`, the type check is `conforms` (subclass test through Optional/Union/Any).
+   STILL MISSING for nested values: keywords building / updating the nested value,
+   dict-as-constructor-arguments, copy-on-write (deep copy of nested receivers). *)
+Theorem C05_refines_instance_partial : forall ct h0 l a c d k sp s lv cv dv,
+  nth_error (heap s) l = Some (OInst c d) -> lookup_cls ct c = Some k -> lookup_attr k a = Some sp ->
+  NoDup (map fst d) -> aok (absv (heap s) (VRef l)) = true ->
+  c_frozen k = false -> no_inval k -> fail_at s = None ->
+  ty_depth (a_ty sp) < FUEL -> ty_is_collection (a_ty sp) = false ->
+  a_prepare sp = None \/ a_prepare sp = Some FId ->
+  nth_error (heap s) lv = Some (OInst cv dv) -> aok (abs 23 (heap s) (VRef lv)) = true ->
+  (forall o, abs 23 (set_nth l o (heap s)) (VRef lv) = abs 23 (heap s) (VRef lv)) ->
+  let h := mkh [VRef lv] true true VMissing false None None [] None in
+  let ah := mkah [absv (heap s) (VRef lv)] true true AMissing false None None [] None in
+  match run_helper ct l (HWith a) h s with
+  | (Ok r, s') => r = VRef l /\
+                  spec_helper ct h0 (absv (heap s) (VRef l)) (SWith a) ah = SOk (absv (heap s') (VRef l)) /\
+                  (forall i, i <> l -> nth_error (heap s') i = nth_error (heap s) i)
+  | (Err e, s') => spec_helper ct h0 (absv (heap s) (VRef l)) (SWith a) ah = SErr e /\ heap s' = heap s
+  end.
+Proof.
+  intros ct h0 l a c d k sp s lv cv dv Hl Hc Ha Hd Hok Hfz Hni Hfa Hty Hnc Hprep Hv Hvok Hindep.
+  exact (with_instance_inplace_refines ct h0 l a c d k sp s lv cv dv Hl Hc Ha Hd Hok Hfz Hni Hfa Hty Hnc Hprep Hv Hvok Hindep).
+Qed.
+
+Theorem C05_setattr_refines_instance_partial : forall ct h0 l a c d k sp s lv cv dv roots x,
+  nth_error (heap s) l = Some (OInst c d) -> lookup_cls ct c = Some k -> lookup_attr k a = Some sp ->
+  NoDup (map fst d) -> aok (absv (heap s) (VRef l)) = true ->
+  c_frozen k = false -> no_inval k -> fail_at s = None ->
+  ty_depth (a_ty sp) < FUEL -> ty_is_collection (a_ty sp) = false ->
+  a_prepare sp = None \/ a_prepare sp = Some FId ->
+  nth_error (heap s) lv = Some (OInst cv dv) -> aok (abs 23 (heap s) (VRef lv)) = true ->
+  (forall o, abs 23 (set_nth l o (heap s)) (VRef lv) = abs 23 (heap s) (VRef lv)) ->
+  nth x roots VNone = VRef l ->
+  let ah := mkah [absv (heap s) (VRef lv)] true true AMissing false None None [] None in
+  match step ct roots (OpSetAttr x a (VRef lv)) s with
+  | (Ok r, s') => spec_helper ct h0 (absv (heap s) (VRef l)) (SSetAttrOp a) ah = SOk (absv (heap s') (VRef l)) /\
+                  (forall i, i <> l -> nth_error (heap s') i = nth_error (heap s) i)
+  | (Err e, s') => spec_helper ct h0 (absv (heap s) (VRef l)) (SSetAttrOp a) ah = SErr e /\ heap s' = heap s
+  end.
+Proof.
+  intros ct h0 l a c d k sp s lv cv dv roots x Hl Hc Ha Hd Hok Hfz Hni Hfa Hty Hnc Hprep Hv Hvok Hindep Hx.
+  exact (setattr_instance_refines ct h0 l a c d k sp s lv cv dv Hl Hc Ha Hd Hok Hfz Hni Hfa Hty Hnc Hprep Hv Hvok Hindep roots x Hx).
+Qed.
+
+(* non-vacuity: class 4 with attribute 5 : Optional[K2]; the K2 instance in cell 0 is stored
+   into the K4 instance in cell 1; a K4 instance is rejected (TypeError) *)
+Definition ex_ct3 : ctable :=
+  ex_ct2 ++ [mkcls 4 [mkattr 5 (TOpt (TSpec 2)) VNone None 4 true false None None []]
+                   false false None [4] 4 [] None None].
+Definition ex_state3 : state := mkst [OInst 2 [(1, VInt 7)]; OInst 4 [(5, VNone)]; OInst 4 []] 0 None.
+Example C05_example_instance :
+  (forall o, abs 23 (set_nth 1 o (heap ex_state3)) (VRef 0) = abs 23 (heap ex_state3) (VRef 0)) /\
+  aok (abs 23 (heap ex_state3) (VRef 0)) = true /\
+  (let '(r, s') := run_helper ex_ct3 1 (HWith 5) (mkh [VRef 0] true true VMissing false None None [] None) ex_state3 in
+   r = Ok (VRef 1) /\ nth_error (heap s') 1 = Some (OInst 4 [(5, VRef 0)])) /\
+  spec_helper ex_ct3 [] (absv (heap ex_state3) (VRef 1)) (SWith 5)
+              (mkah [absv (heap ex_state3) (VRef 0)] true true AMissing false None None [] None)
+    = SOk (AInst 4 [(5, AInst 2 [(1, AInt 7)])]) /\
+  (let '(r, s') := run_helper ex_ct3 1 (HWith 5) (mkh [VRef 2] true true VMissing false None None [] None) ex_state3 in
+   r = Err TypeErr /\ s' = ex_state3).
+Proof.
+  split.
+  { apply (indep_below 1); [|exact (le_n 1)|exact (le_n 1)].
+    intros i o Hi Ho. assert (i = 0) by lia. subst i. vm_compute in Ho. inversion Ho; subst.
+    repeat constructor. }
+  vm_compute. repeat split.
+Qed.
+
 Print Assumptions C05_noop_if_false.
 Print Assumptions C05_noop_with_unchanged.
 Print Assumptions C05_noop_update_unchanged.
@@ -1032,3 +1106,6 @@ Print Assumptions C05_example_update_top_inval.
 Print Assumptions C05_with_nothing_refines_partial.
 Print Assumptions C05_transform_nothing_refines_partial.
 Print Assumptions C05_example_nothing.
+Print Assumptions C05_refines_instance_partial.
+Print Assumptions C05_setattr_refines_instance_partial.
+Print Assumptions C05_example_instance.
